@@ -80,6 +80,7 @@ type Result struct {
 	Nonconform  string // first non-conforming thing the library wrote ("" = none)
 	Err         error  // transport level problem (EOF in the wrong place etc.)
 	Choices     map[string]int
+	Sent        []Elem // everything the peer wrote, as structured elements (see script.go)
 	libProposed []libProp
 }
 
@@ -150,9 +151,15 @@ func (p *peer) line() (string, error) {
 	return s, nil
 }
 
-func (p *peer) send(format string, a ...any) error {
-	_, err := fmt.Fprintf(p.rw, format, a...)
+// emit writes elements and logs them.
+func (p *peer) emit(el ...Elem) error {
+	p.res.Sent = append(p.res.Sent, el...)
+	_, err := p.rw.Write(Render(el))
 	return err
+}
+
+func (p *peer) send(format string, a ...any) error {
+	return p.emit(Elem{Kind: "line", Text: strings.TrimSuffix(fmt.Sprintf(format, a...), "\r")})
 }
 
 var sidRe = regexp.MustCompile(`^\[([^\]]*)\]$`)
@@ -234,26 +241,25 @@ func (p *peer) readLibHandshake(libIsMaster bool) error {
 
 func (p *peer) sendHandshake() error {
 	c := p.c
-	var b bytes.Buffer
+	var el []Elem
 	if c.Master {
 		for _, m := range c.MOTD {
-			b.WriteString(m + "\r")
+			el = append(el, Elem{Kind: "line", Text: m})
 		}
 	}
 	if c.FW != nil {
-		b.WriteString(";FW: " + strings.Join(c.FW, " ") + "\r")
+		el = append(el, Elem{Kind: "line", Text: ";FW: " + strings.Join(c.FW, " ")})
 	}
-	b.WriteString(c.SID + "\r")
+	el = append(el, Elem{Kind: "line", Text: c.SID})
 	if c.Master {
 		if c.Challenge != "" {
-			b.WriteString(";PQ: " + c.Challenge + "\r")
+			el = append(el, Elem{Kind: "line", Text: ";PQ: " + c.Challenge})
 		}
-		b.WriteString(c.Prompt + "\r")
+		el = append(el, Elem{Kind: "line", Text: c.Prompt})
 	} else {
-		fmt.Fprintf(&b, "; %s DE %s (%s)\r", c.Exp.Call, c.Call, c.Locator)
+		el = append(el, Elem{Kind: "line", Text: fmt.Sprintf("; %s DE %s (%s)", c.Exp.Call, c.Call, c.Locator)})
 	}
-	_, err := p.rw.Write(b.Bytes())
-	return err
+	return p.emit(el...)
 }
 
 func (p *peer) session() error {
@@ -328,12 +334,11 @@ func (p *peer) myTurn() (done bool, err error) {
 			break
 		}
 	}
-	var b bytes.Buffer
+	var el []Elem
 	for _, cmt := range p.c.PreBlock {
-		b.WriteString(cmt + "\r")
+		el = append(el, Elem{Kind: "line", Text: cmt})
 		p.res.Choices["comment-before-block"]++
 	}
-	var lines []string
 	payloads := make([][]byte, len(block))
 	for i, m := range block {
 		code := m.Code
@@ -344,19 +349,17 @@ func (p *peer) myTurn() (done bool, err error) {
 			code = 'C'
 		}
 		payloads[i] = Payload(m.Data, code)
-		l := ProposalLine(code, "EM", m.MID, len(m.Data), len(payloads[i]))
-		lines = append(lines, l)
-		b.WriteString(l + "\r")
+		el = append(el, Elem{Kind: "prop", MID: m.MID, Code: code, USize: len(m.Data), CSize: len(payloads[i])})
 		if i < len(block)-1 {
 			for _, cmt := range p.c.MidBlock {
-				b.WriteString(cmt + "\r")
+				el = append(el, Elem{Kind: "line", Text: cmt})
 				p.res.Choices["comment-between-proposals"]++
 			}
 		}
 		block[i].Code = code
 	}
-	fmt.Fprintf(&b, "F> %02X\r", BlockChecksum(lines))
-	if _, err := p.rw.Write(b.Bytes()); err != nil {
+	el = append(el, Elem{Kind: "end"})
+	if err := p.emit(el...); err != nil {
 		return false, err
 	}
 	// the library's answer
@@ -392,8 +395,7 @@ func (p *peer) myTurn() (done bool, err error) {
 		switch ans[i] {
 		case '+', 'Y', 'y':
 			nAcc++
-			f := Frame(asciiTitle(m.Title), "0", payloads[i], p.c.BlockSizes)
-			if _, err := p.rw.Write(f); err != nil {
+			if err := p.emit(Elem{Kind: "frame", MID: m.MID, Code: m.Code, Title: asciiTitle(m.Title), Offset: "0", Payload: payloads[i], Blocks: p.c.BlockSizes, Msg: m.Data}); err != nil {
 				return false, err
 			}
 			p.myDone[m.MID] = true
@@ -537,18 +539,18 @@ func (p *peer) libTurn() (done bool, err error) {
 }
 
 func (p *peer) answerBlock(props []libProp) error {
-	var b bytes.Buffer
+	var el []Elem
 	for _, cmt := range p.c.PreFS {
-		b.WriteString(cmt + "\r")
+		el = append(el, Elem{Kind: "line", Text: cmt})
 		p.res.Choices["comment-before-FS"]++
 	}
-	b.WriteString("FS ")
+	fs := "FS "
 	for i := range props {
 		tok := p.c.Answers[props[i].mid]
 		if tok == "" {
 			tok = "+"
 		}
-		b.WriteString(tok)
+		fs += tok
 		p.res.Choices["answer:"+tok]++
 		switch tok[0] {
 		case '+', 'Y', 'y', '!', 'A', 'a':
@@ -564,8 +566,8 @@ func (p *peer) answerBlock(props []libProp) error {
 			props[i].answer = '='
 		}
 	}
-	b.WriteString("\r")
-	if _, err := p.rw.Write(b.Bytes()); err != nil {
+	el = append(el, Elem{Kind: "line", Text: fs})
+	if err := p.emit(el...); err != nil {
 		return err
 	}
 	for _, pr := range props {
